@@ -1,3 +1,74 @@
+import PB.Model.Container
+import PB.Spec.ByteQueue
 import PB.Drv.Loop
-/- Driver stub for C16 (model not built yet): every op is rejected. -/
-def main : IO Unit := PB.Drv.lineLoop (fun _ => "bad-op")
+/- Driver for C16: one container method call per line; runs the concrete model and, as a guard against a
+   stale build, the byte-queue spec next to it (their agreement is theorem `PB.C16.refines_run`). -/
+namespace PB.Drv.C16
+open PB PB.Container
+open PB.ByteQueue (Op Out)
+
+def showOut : Out → String
+  | .unit => "ok"
+  | .bytes b => s!"b {toHex b}"
+  | .num n => s!"n {n}"
+  | .bool b => if b then "t" else "f"
+  | .err e => s!"err {e}"
+  | .nilc => "nil"
+  | .wts b e => s!"wts {toHex b} {if e then "t" else "f"}"
+
+def hexes (ws : List String) : Option (List Bytes) := ws.mapM parseHex
+
+def parseOp : List String → Option Op
+  | ["append", h] => (parseHex h).map .append
+  | ["prepend", h] => (parseHex h).map .prepend
+  | ["appendnum", n] => n.toNat?.map .appendNumber
+  | ["prependnum", n] => n.toNat?.map .prependNumber
+  | ["appendint", i] => i.toInt?.map .appendInt
+  | ["prependint", i] => i.toInt?.map .prependInt
+  | ["appendblock", h] => (parseHex h).map .appendAsBlock
+  | ["prependblock", h] => (parseHex h).map .prependAsBlock
+  | "appendcont" :: hs => (hexes hs).map .appendContainer
+  | "appendcontblock" :: hs => (hexes hs).map .appendContainerAsBlock
+  | ["prependlen"] => some .prependLength
+  | ["replace", h] => (parseHex h).map .replace
+  | ["compile"] => some .compileData
+  | ["get", i] => i.toInt?.map .get
+  | ["getall"] => some .getAll
+  | ["getcont", i] => i.toInt?.map .getAsContainer
+  | ["getmax", i] => i.toInt?.map .getMax
+  | ["wts", n] => n.toNat?.map .writeToSlice
+  | ["peek", i] => i.toInt?.map .peek
+  | ["peekcont", i] => i.toInt?.map .peekContainer
+  | ["block"] => some .getNextBlock
+  | ["blockcont"] => some .getNextBlockAsContainer
+  | ["n8"] => some .getNextN8
+  | ["n16"] => some .getNextN16
+  | ["n32"] => some .getNextN32
+  | ["n64"] => some .getNextN64
+  | ["holds"] => some .holdsData
+  | ["len"] => some .length
+  | _ => none
+
+structure St where
+  c : Option C := none
+  q : PB.ByteQueue.Q := []
+
+def handle (s : St) (line : String) : St × String :=
+  match PB.Drv.words line with
+  | "new" :: hs => match hexes hs with
+    | some ds => ({ c := some (new ds), q := ds.flatten }, "ok")
+    | none => (s, "bad-op")
+  | ["dump"] => match s.c with
+    | some c => (s, if c.bytes = s.q then s!"b {toHex c.bytes}" else s!"SPECDIFF dump model={toHex c.bytes} spec={toHex s.q}")
+    | none => (s, "bad-op")
+  | ws => match s.c, parseOp ws with
+    | some c, some op =>
+      let r := step c op
+      let r' := PB.ByteQueue.step s.q op
+      if r.2 = r'.2 then ({ c := some r.1, q := r'.1 }, showOut r.2)
+      else ({ c := some r.1, q := r'.1 }, s!"SPECDIFF model={showOut r.2} spec={showOut r'.2}")
+    | _, _ => (s, "bad-op")
+
+end PB.Drv.C16
+
+def main : IO Unit := PB.Drv.runState ({} : PB.Drv.C16.St) PB.Drv.C16.handle
